@@ -3,7 +3,10 @@ package c10
 import (
 	"fmt"
 	"github.com/go-kid/ioc/app"
+	"github.com/go-kid/ioc/component_definition"
 	"github.com/go-kid/ioc/container"
+	"github.com/go-kid/ioc/container/factory"
+	"github.com/go-kid/ioc/container/support"
 	"math"
 	"reflect"
 	"runtime"
@@ -175,7 +178,7 @@ func dedup(xs []string) []string {
 	return out
 }
 
-var kinds = []int{0, 1, 2, 2, 3, 3, 4, 6, 7, 8, 8, 9, 10, 11}
+var kinds = []int{0, 1, 2, 2, 3, 3, 4, 6, 7, 8, 8, 9, 10, 11, 13, 14, 20, 21} // 13, 14, 20, 21: zero-size (stateless) providers
 var names = []string{"n1", "n2", "n3", "n4", "n5", "n6", "n7"}
 var quals = []string{"", "g1", "g2", "g1"}
 
@@ -271,10 +274,13 @@ func (*PlainPP) PostProcessAfterInitialization(c any, n string) (any, error)  { 
 func TestGraphs(t *testing.T) {
 	kit.Rec.Rule(rule)
 	rapid.Check(t, func(t *rapid.T) {
-		s := graph.Gen(t, graph.GenOpts{MinNodes: 2, MaxNodes: 6, Variants: "NNRLPEX", Aliases: true, Selfs: true})
+		s := graph.Gen(t, graph.GenOpts{MinNodes: 2, MaxNodes: 6, Variants: "NNRLPEX", Aliases: true, Selfs: true, ShortAliases: true})
 		// sometimes user post-processors take part: a plain one and one that proxies consistently at early-reference time
 		withPP := rapid.IntRange(0, 2).Draw(t, "withpp") == 0
 		wrapIdx := map[int]bool{}
+		// (a processor that decorates after initialization ONLY is left out by construction: with one on a cycle the
+		// outcome depends on the enumeration order - known finding after-init-decorator-outcome-depends-on-enumeration-order,
+		// witness TestKnownDecoratorOutcomeDependsOnEnumerationOrder)
 		if withPP {
 			for i, n := range s.Nodes {
 				if n.Variant != 'N' && rapid.Bool().Draw(t, "wrap") {
@@ -519,4 +525,77 @@ func TestRunnerOrderOutcome(t *testing.T) {
 		}
 		kit.Rec.Case(fmt.Sprintf("runner-order lo=%d hi=%d prio=%v extra=%d", lo, hi, prio, extra), true, "runner-order-outcome")
 	})
+}
+
+// ---- known finding: a plain after-initialization decorator on a cycle ---------------------------------------------
+
+// KHolder collects the two members of a cycle through a slice; KP and KQ refer to each other; kDecoPP decorates KQ
+// after initialization (a plain ComponentPostProcessor: it has no early-reference callback). The candidates of
+// KHolder.All are created in the order the definition registry enumerates them: KP first -> the start succeeds,
+// KQ first -> KQ's raw early reference reaches KP and the start is refused ("has been wrapped").
+type KI interface{ isKI() }
+type KP struct {
+	Q KI `wire:"k-q"`
+}
+type KQ struct {
+	P KI `wire:"k-p"`
+}
+
+func (*KP) Naming() string { return "k-p" }
+func (*KQ) Naming() string { return "k-q" }
+
+type KQDeco struct{ Target *KQ }
+
+func (*KP) isKI()     {}
+func (*KQ) isKI()     {}
+func (*KQDeco) isKI() {}
+
+type KHolder struct {
+	All []KI `wire:""`
+}
+
+func (*KHolder) Naming() string { return "a-k-holder" }
+
+type kDecoPP struct{}
+
+func (*kDecoPP) PostProcessBeforeInitialization(c any, n string) (any, error) { return c, nil }
+func (*kDecoPP) PostProcessAfterInitialization(c any, n string) (any, error) {
+	if q, ok := c.(*KQ); ok {
+		return &KQDeco{Target: q}, nil
+	}
+	return c, nil
+}
+
+// sortedDR enumerates the definitions by name, ascending or descending - two of the orders a registry may produce.
+type sortedDR struct {
+	container.DefinitionRegistry
+	desc bool
+}
+
+func (d *sortedDR) GetMetas(opts ...container.Option) []*component_definition.Meta {
+	ms := d.DefinitionRegistry.GetMetas(opts...)
+	sort.SliceStable(ms, func(i, j int) bool {
+		if d.desc {
+			return ms[i].Name() > ms[j].Name()
+		}
+		return ms[i].Name() < ms[j].Name()
+	})
+	return ms
+}
+
+func TestKnownDecoratorOutcomeDependsOnEnumerationOrder(t *testing.T) {
+	const class = "after-init-decorator-outcome-depends-on-enumeration-order"
+	var outcomes []string
+	for _, desc := range []bool{false, true} {
+		dr := &sortedDR{DefinitionRegistry: support.DefaultDefinitionRegistry(), desc: desc}
+		f := factory.NewWithRegistries(dr, support.DefaultSingletonComponentRegistry())
+		out := kit.RunApp(app.SetFactory(f), app.SetComponents(&KHolder{}, &KP{}, &KQ{}, &kDecoPP{}))
+		if out.Panic != nil {
+			t.Fatalf("C10: start-up panicked: %v", out.Panic)
+		}
+		outcomes = append(outcomes, fmt.Sprintf("definitions enumerated %s: started=%v", map[bool]string{false: "ascending", true: "descending"}[desc], out.Err == nil))
+	}
+	fails := strings.HasSuffix(outcomes[0], "true") != strings.HasSuffix(outcomes[1], "true")
+	kit.Rec.KnownWitness(class, fails, strings.Join(outcomes, "; "))
+	t.Logf("witness fails=%v: %v", fails, outcomes)
 }
